@@ -136,6 +136,30 @@ def _replay_tokens(data):
     return rp
 
 
+@replay_factory('lexes_as_written')
+def _replay_lexes_as_written(data):
+    """the real tokenize_program on `data` must give the token sequence that the lexer of the same tree (lifted from its MIR, run concretely) gives on the text as written:
+    a preprocessing step that alters the text shows as a difference"""
+    def rp(ctx):
+        from mirsym import lexlift
+        LM = LC.lexmodel(ctx); bs = list(data); N = len(bs)
+        L = lexlift.Lift(LM, bs); toks = L.lex_all()
+        names = {v: k for k, v in LM.tok_id.items()}
+        exp = []; pos = 0; err_ = False
+        while pos < N:
+            kind, end = toks[pos]; kind = simp(kind); end = simp(end)
+            if not isinstance(kind, int) or not isinstance(end, int) or end <= pos: return None, {'note': 'lexer model not concrete'}
+            if kind == lexlift.ERR: err_ = True; break
+            exp.append((names.get(kind, str(kind)), pos, end)); pos = end
+        r = ctx.replay({'cmd': 'tokenize', 'source': data.decode('utf-8')})
+        if 'panic' in r: return True, r
+        got = [(t['type'], t['start'], t['end']) for t in r['tokens'] if not (t['type'] == 'Semicolon' and t['text'] == '')]
+        texts_ok = all(data[t['start']:t['end']].decode('utf-8', 'replace') == t['text'] for t in r['tokens'] if t['text'] != '')
+        if err_: bad = (not r['diagnostics']) or got[:len(exp)] != exp or not texts_ok
+        else: bad = bool(r['diagnostics']) or got != exp or not texts_ok
+        return bad, {'source': data.decode('utf-8', 'replace'), 'lexer_on_the_text_as_written': exp[:10], 'tokenize_program': got[:10], 'diagnostics': len(r['diagnostics']), 'token_texts_equal_source': texts_ok}
+    return rp
+
 @kernel('K1 lexer.tokenize_accounting')
 def k1(ctx, kr):
     global _CTX
@@ -178,7 +202,9 @@ KERNELS = [k1]
 # ---------------------------------------------------------------------------------------------- K2 preprocessor keeps offsets
 KEY = b'(*@KEY@:DESCRIPTION*)'; ENDKEY = b'(*@KEY@:END_DESCRIPTION*)'
 
+COMMENT_ALPHABET = "(*){}'\"/x \n"
 def _k2_job(job):
+    if job[0] == 'tpl': return _k2_tpl_job(job)
     lp, lm, ls = job
     ctx = _CTX; part = Part()
     P = ctx.program(['ironplc-parser', 'ironplc-dsl'])
@@ -237,13 +263,54 @@ def _k2_job(job):
     part.queries += M.stats['smt']; part.encoded = set(M.encoded); part.models = set(M.models_used)
     return part
 
+def _k2_tpl_job(job):
+    """source = fixed pieces and runs of symbolic bytes over COMMENT_ALPHABET (comment delimiters, braces, quotes, slash, a letter, blank, line break): preprocess must return it unchanged"""
+    _, pieces = job
+    ctx = _CTX; part = Part()
+    P = ctx.program(['ironplc-parser', 'ironplc-dsl'])
+    key = P.find_fn('ironplc-parser', 'preprocessor::preprocess')
+    M = Machine(P, max_steps=20_000_000)
+    allb = []; sym = []
+    for pc in pieces:
+        if isinstance(pc, str): allb += list(pc.encode())
+        else:
+            for _ in range(pc):
+                b = z3.BitVec('c%d' % len(sym), 8); sym.append(b); allb.append(b)
+    dom = z3.And([z3.Or([b == ord(c) for c in COMMENT_ALPHABET]) for b in sym]) if sym else z3.BoolVal(True)
+    M.base_constraints = [dom]
+    def entry(M): return M.call_fn(key, [Ref(Cell(Str(list(allb))))])
+    def on_path(M, pr):
+        part.paths += 1
+        if pr.inconclusive: part.inconc(pr.inconclusive); return
+        s = z3.Solver(); s.add(dom, *pr.pc)
+        def wit(role, what):
+            m = s.model(); data = bytes(x if isinstance(x, int) else m.eval(x, True).as_long() for x in allb)
+            part.add(role, '%s (witness %r)' % (what, data.decode('utf-8', 'replace')), {'source_bytes': list(data)}, ('lexes_as_written', (data,)))
+        t = time.time(); r = s.check(); part.solver_s += time.time() - t; part.queries += 1
+        if r != z3.sat: return
+        part.nontrivial += 1
+        if pr.panic: wit('C05/K2/panic', 'preprocess panics: ' + pr.panic.msg); return
+        out = pr.result
+        if not isinstance(out, Str): part.inconc('unexpected result %r' % (out,)); return
+        if len(out.b) != len(allb): wit('C05/K2/length/comment-text', 'preprocessing a text of comments without an OSCAT description changes its length (%d -> %d bytes)' % (len(allb), len(out.b))); return
+        bad = [tobv(x, 8) != tobv(y, 8) for x, y in zip(out.b, allb) if not (x is y or (isinstance(x, int) and isinstance(y, int) and x == y) or (is_sym(x) and is_sym(y) and x.eq(y)))]
+        if bad:
+            s.add(z3.Or(bad)); t = time.time(); r = s.check(); part.solver_s += time.time() - t; part.queries += 1
+            if r == z3.sat: wit('C05/K2/content/comment-text', 'preprocessing alters a text that holds no OSCAT description')
+        if len(part.samples) < 1: part.samples.append({'pieces': [p if isinstance(p, str) else '<%d symbolic>' % p for p in pieces]})
+    M.explore(entry, on_path, max_paths=60000)
+    part.queries += M.stats['smt']; part.encoded = set(M.encoded); part.models = set(M.models_used)
+    return part
+
+COMMENT_TEXTS = [['(*', 3, '*) a := 1; (*', 2, '*)'], ['(*', 2, '*)', 2, '(*', 1, '*)'], ['a := ', 2, '; (* c *) ', 2], [4]]
+
 @kernel('K2 preprocessor.offset_preservation')
 def k2(ctx, kr):
     global _CTX
     _CTX = ctx
     LM_ = 3 if ctx.tier == 'quick' else 4
-    jobs = [(lp, lm, ls) for lp in (0, 1) for lm in range(0, LM_ + 1) for ls in (0, 1)] + [(lp, None, 0) for lp in range(1, LM_ + 2)]
-    kr.bounds = 'preprocess(source) with source = P ++ "(*@KEY@:DESCRIPTION*)" ++ M ++ "(*@KEY@:END_DESCRIPTION*)" ++ S with P, M, S symbolic valid UTF-8, |P|,|S| <= 1, |M| <= %d; and source = any valid UTF-8 text of 1..%d bytes (left unchanged)' % (LM_, LM_ + 1)
+    jobs = [(lp, lm, ls) for lp in (0, 1) for lm in range(0, LM_ + 1) for ls in (0, 1)] + [(lp, None, 0) for lp in range(1, LM_ + 2)] + [('tpl', t) for t in COMMENT_TEXTS]
+    kr.bounds = 'preprocess(source) with source = P ++ "(*@KEY@:DESCRIPTION*)" ++ M ++ "(*@KEY@:END_DESCRIPTION*)" ++ S with P, M, S symbolic valid UTF-8, |P|,|S| <= 1, |M| <= %d; and source = any valid UTF-8 text of 1..%d bytes, and comment texts %s with runs of symbolic bytes over the alphabet %r (left unchanged)' % (LM_, LM_ + 1, COMMENT_TEXTS, COMMENT_ALPHABET)
     for part in par_map(_k2_job, jobs): merge_part(kr, part)
     P = ctx.program(['ironplc-parser', 'ironplc-dsl'])
     kr.functions = fn_paths(P, getattr(kr, '_enc', set()))
